@@ -157,3 +157,84 @@ theorem decodeHead_prefix {get get' : Nat → UInt8} {len len' : Nat} {t : Tok} 
   · rename_i h7; rw [if_neg h7]; exact decodeMtArg_prefix h hg hl
 
 end Spec
+
+namespace Spec
+/-! ### truncation: cutting a buffer inside a head (or its payload) gives NEDATA, never ERROR -/
+
+theorem tokOfArg_trunc {mt ai v hl len len' : Nat} {t : Tok} {l : Nat}
+    (h : tokOfArg mt ai v hl len = .ok t l) (h1 : hl ≤ len') (h2 : len' < l) :
+    ∃ need, tokOfArg mt ai v hl len' = .nedata need := by
+  unfold tokOfArg at h ⊢
+  split at h
+  all_goals first
+    | (split at h <;> simp at h; obtain ⟨rfl, rfl⟩ := h; exact ⟨_, by rw [if_neg (by omega)]⟩)
+    | (simp at h; omega)
+
+theorem decodeHead_trunc {get : Nat → UInt8} {len len' : Nat} {t : Tok} {l : Nat}
+    (h : decodeHead get len = .ok t l) (h2 : len' < l) : ∃ need, decodeHead get len' = .nedata need := by
+  by_cases h0 : len' = 0
+  · exact ⟨1, by simp [decodeHead, h0]⟩
+  unfold decodeHead at h ⊢
+  rw [if_neg h0]
+  split at h
+  · simp at h
+  split at h
+  · rename_i h7
+    rw [if_pos h7]
+    unfold decodeMt7 at h ⊢
+    repeat' split at h
+    all_goals (simp at h)
+    all_goals (obtain ⟨rfl, rfl⟩ := h)
+    all_goals (try omega)
+    all_goals (simp [*]; exact ⟨_, by rw [if_neg (by omega)]⟩)
+  · rename_i h7
+    rw [if_neg h7]
+    unfold decodeMtArg at h ⊢
+    repeat' split at h
+    · rename_i ha
+      rw [if_pos ha]
+      exact tokOfArg_trunc h (by omega) h2
+    · rename_i ha hb hc
+      rw [if_neg ha, if_pos hb]
+      by_cases hk : 1 + argBytes ((get 0).toNat % 32) ≤ len'
+      · rw [if_pos hk]; exact tokOfArg_trunc h hk h2
+      · rw [if_neg hk]; exact ⟨_, rfl⟩
+    · simp at h
+    · have := decodeIndef_ok h; omega
+    · simp at h
+
+end Spec
+
+namespace Spec
+theorem decodeMt7_congr {get get' : Nat → UInt8} {len ai : Nat} (h : ∀ i, i < len → get' i = get i) :
+    decodeMt7 get' len ai = decodeMt7 get len ai := by
+  unfold decodeMt7
+  by_cases h2 : 3 ≤ len
+  · by_cases h4 : 5 ≤ len
+    · by_cases h8 : 9 ≤ len
+      · rw [beNat_congr get get' 1 2 (fun i _ hi => h i (by omega)), beNat_congr get get' 1 4 (fun i _ hi => h i (by omega)),
+            beNat_congr get get' 1 8 (fun i _ hi => h i (by omega))]
+      · rw [beNat_congr get get' 1 2 (fun i _ hi => h i (by omega)), beNat_congr get get' 1 4 (fun i _ hi => h i (by omega))]
+        simp only [h8, if_false]
+    · have h8 : ¬ 9 ≤ len := by omega
+      rw [beNat_congr get get' 1 2 (fun i _ hi => h i (by omega))]
+      simp only [h4, h8, if_false]
+  · have h4 : ¬ 5 ≤ len := by omega
+    have h8 : ¬ 9 ≤ len := by omega
+    simp only [h2, h4, h8, if_false]
+
+theorem decodeMtArg_congr {get get' : Nat → UInt8} {len mt ai : Nat} (h : ∀ i, i < len → get' i = get i) :
+    decodeMtArg get' len mt ai = decodeMtArg get len mt ai := by
+  unfold decodeMtArg
+  by_cases hk : 1 + argBytes ai ≤ len
+  · rw [beNat_congr get get' 1 (argBytes ai) (fun i _ hi => h i (by omega))]
+  · simp only [hk, if_false]
+
+/-- the head reader only inspects bytes inside the buffer -/
+theorem decodeHead_congr {get get' : Nat → UInt8} {len : Nat} (h : ∀ i, i < len → get' i = get i) :
+    decodeHead get' len = decodeHead get len := by
+  unfold decodeHead
+  by_cases h0 : len = 0
+  · simp [h0]
+  · rw [if_neg h0, if_neg h0, h 0 (by omega), decodeMt7_congr h, decodeMtArg_congr h]
+end Spec
